@@ -104,8 +104,9 @@ func (block *CBlock) updateTop(changedCandidates []*Candidate) {
 		// some candidates unregistered. so maybe some normal nodes will become new candidates
 		// resort all candidates
 		block.Top.Rank(max_candidate_count, block.CandidateTrieDB.GetAll())
-	} else if newTop.Min().Total.Cmp(block.Top.Min().Total) >= 0 {
+	} else if newTop.Min().Total.Cmp(block.Top.Min().Total) > 0 {
 		// the min votes become bigger, it means some old candidates get richer now.
+		// (if the min votes stay equal, a candidate outside the list may have the same votes and a smaller address than a member whose votes dropped to the min. So resort all then)
 		// the other candidates whose vote is not changed, must not be in the top list. so we can just use the newTop
 		block.Top = newTop
 	} else {
